@@ -239,6 +239,17 @@ def fam_names(thorough):
                              lambda b: IT('i', (0, 2, 1), REP(2, IT('j', (0, 2, 1), b)))):
                     out.append(_run(nest(h), ['a', 'b'], fam))
                     out.append(_run(nest(SEQ(h, h0)), ['b', 'a'], fam))
+    # a loop index bound again by an inner loop of the same name (shadowing; former AssertionError, repaired a68b904)
+    for c_out, c_in in (('1/2', '1/4'), ('1', '1'), ('-1/2', '2')):
+        outer_h = H(1, a=('4', {'i': c_out}), b=('0', {'i': '1'}))
+        inner_h = H(1, a=('0', {'i': c_in}), b='1/2')
+        for inner_rng in ((0, 2, 1), (3, 0, -1), (1, 2, 1)):
+            inner = IT('i', inner_rng, inner_h)
+            for body in (SEQ(outer_h, inner), SEQ(inner, outer_h), SEQ(outer_h, REP(2, inner), outer_h)):
+                out.append(_run(IT('i', (0, 3, 1), body), ['a', 'b'], fam))
+                out.append(_run(REP(2, IT('i', (1, 4, 2), body)), ['b', 'a'], fam))
+    mid = IT('j', (0, 2, 1), SEQ(H(1, a=('0', {'i': '1/2', 'j': '1/4'})), IT('i', (0, 3, 1), H(1, a=('1', {'i': '1/8', 'j': '1'})))))
+    out.append(_run(IT('i', (0, 2, 1), mid), ['a'], fam))
     # loop indices called like the channels
     out.append(_run(IT('a', (0, 3, 1), IT('b', (0, 2, 1), H(1, a=('0', {'a': '1/2', 'b': '1/4'}), b=('1', {'b': '1/2'})))), ['a', 'b'], fam))
     out.append(_run(IT('b', (0, 3, 1), H(1, a=('0', {'b': '1/2'}), b=('1', {'b': '1'}))), ['b', 'a'], fam))
